@@ -11,6 +11,9 @@ CLAIMED = {
  "C02": ("the same crash-point enumeration as C01, verdict on the upper bound of the admissible set (nothing of a loser visible, commit-in-progress atomic)",
          "Same exhaustive exploration as C01 (all crash points from the first I/O event after the seed, including points inside statements, commit, abort, eviction and checkpoint); a recovered table must equal the committed model state before or after the commit in progress; differences are attributed to C02 when they are effects of a transaction that had not committed.",
          "as C01", "§4 C02"),
+ "C08": ("invariant monitor evaluated at every event of the recorded I/O trace of every explored history (the C01/C02 history space)",
+         "For every history of the C01/C02 space (all pool sizes, checkpoint placements, eviction patterns they contain) the complete DiskManager call trace is checked event by event: a heap page write never carries a page LSN beyond the last complete record on stable storage, a writing transaction's commit returns only after its COMMIT record is durable, the log file always parses (with the repository's own record parser) into complete records with per-transaction increasing LSNs and intact prevLSN chains.",
+         "heap pages = table heap chains of user tables; sequential histories here, concurrent executions are covered by the Engine C drivers", "§4 C08"),
  "C09": ("explicit-state search over DDL/DML/clean-restart histories on the real database, differential battery before/after each restart",
          "Every history up to the depth bound of CREATE TABLE, inserts (incl. multi-page growth), in-place/key-changing/relocating updates, deletes and Shutdown()+reopen cycles is run on the real engine (pool 32 KB and 128 KB, 3 seeds); a battery of full scan, every point key and every range through index path and scan path must give identical answers immediately before shutdown and after reopen; later statements are compared with a row model.",
          "auto-commit statements, skip-list indexes (SQL DDL); failures that reproduce without the restart are not attributed to C09", "§4 C09"),
@@ -29,6 +32,9 @@ CLAIMED = {
  "C18": ("exhaustive enumeration of the input domains: all 2^32 integers and all non-NaN float32 bit patterns walked in numeric order (adjacent pairs), all strings over a 6-byte alphabet up to length 4/5 (all pairs), all row ids over byte lanes",
          "The whole finite domain is enumerated on the real exported encode/decode/pack functions (thorough: every int32 and every float32; quick: windows around every byte-lane/sign/exponent boundary plus a stride): round trip, order of adjacent values (total order by transitivity), same-key adjacency (largest-rid entry of a key sorts before smallest-rid entry of the next key), ScanKey window containment, B-tree zero padding.",
          "containers compare encoded keys bytewise; strings without NUL; the B-tree's 6-byte rid squeeze is mirrored here and exercised for real in C17", "§4 C18"),
+ "C20": ("nested crash-point enumeration: every prefix (and flush-run subset, torn log tail) of the recovery run's own I/O trace, for every first-generation crash image",
+         "For every C01 history with <=1 (thorough <=2) DML statements and every first-generation crash point whose recovery is correct, the recovery itself is run under the I/O recorder; every crash point inside it yields a second-generation image which is recovered again and must give exactly the tables of the uninterrupted recovery (third generation in thorough mode).",
+         "as C01; torn page writes excluded (known finding of C01); differential oracle against the uninterrupted recovery of the same image", "§4 C20"),
 }
 
 ALL = ["C%02d" % i for i in range(1, 21)]
